@@ -2,7 +2,7 @@
     (CONVENTIONS 1), and executions of the kernel model. *)
 From Coq Require Import ZArith List Bool String.
 From TV Require Import spec.Storage spec.Spec model.DesugarSem model.Exhaust model.DesugarSemGraph
-  model.Kernel proofs.KernelEncode proofs.KernelSound proofs.KernelSupport proofs.KernelTheorems.
+  model.Kernel proofs.KernelEncode proofs.KernelSound proofs.KernelSupport proofs.KernelBucket proofs.KernelTheorems.
 Import ListNotations.
 Open Scope string_scope.
 Open Scope Z_scope.
@@ -29,7 +29,7 @@ Definition exa_matmul_add : assignment Z :=
   mkAssign "a" ["i"; "j"]
     (EAdd (EMul (ETensor "b" ["i"; "k"]) (ETensor "c" ["k"; "j"])) (ETensor "d" ["i"; "j"])).
 
-(** all hypotheses of [C01G_G_computes_spec_partial] hold, and the output is non-trivial:
+(** all hypotheses of [C01G_G_computes_spec] and [C01G_G_no_phantoms] hold, and the output is non-trivial:
     row 0 stores columns 0 and 1, row 1 stores column 1 only (an implicit zero is not stored) *)
 Example kernel_hypotheses_instance :
   graph_okb exc_matmul_add exg_matmul_add ["i"; "j"] = true
@@ -42,8 +42,8 @@ Example kernel_hypotheses_instance :
 Proof. vm_compute. repeat split. Qed.
 
 (** a(j) = b(i,j)  with b:ds : the contraction loop is OUTSIDE the output loop, so the dense
-    output is filled through a bucket -- accepted by the generator ([graph_okb]) but outside
-    [in_fragment]: the gap between the _partial theorem and the full statement *)
+    output is filled through a bucket (outside [in_fragment], inside [graph_okb]: the theorems
+    cover it) *)
 Definition exg_colsum : graph Z :=
   GIter "i" None (GIter "j" (Some 0%nat) (GTerminal (ITensor "1_b" "b" ["i"; "j"] [MDense; MCompressed]))).
 
@@ -51,7 +51,7 @@ Definition exc_colsum : kcfg :=
   mkCfg [("b", exi_b)] (sizes_of [("i", 2); ("j", 3)]) ["j"] [MDense] [0%nat] (graph_leaves exg_colsum).
 
 Example outside_fragment_instance :
-  graph_okb exc_colsum exg_colsum ["j"] = true
+  graph_okb exc_colsum exg_colsum ["j"] = true /\ support_okb exc_colsum exg_colsum = true
   /\ in_fragment exc_colsum exg_colsum = false
   /\ G_out exc_colsum exg_colsum = mkTensor [3] [0%nat] [LDense] [1; 3; 2].
 Proof. vm_compute. repeat split. Qed.
